@@ -2,7 +2,7 @@
 C15 (source tie) — the hand-written model of the trust-anchor proxy's two gate-keeping commands
 (`KM.Ta.processSignerResponse`, the `makeSignerRequest` arm of `KM.Ta.process`, Ta/Proxy.lean) equals
 the definitions that the translator `pure_fns` regenerates from `/repo/src/server/taproxy.rs` on every
-run (`Generated/PureFnsC15.lean`: `KM.Gen.TrustAnchorProxy.process_signer_response`,
+run (`Generated/PureFnsC15.lean`: `KM.Gen.C15.TrustAnchorProxy.process_signer_response`,
 `…process_make_signer_request`).
 
 `response_accepted_iff` (a response is accepted iff a request is open ∧ its nonce is that request's ∧
@@ -28,7 +28,7 @@ def validateAs (m : Signed RespBody) (s : SignerInfo) : Except Err Unit :=
 
 /-- The generated body with the model's proxy state and message plugged in. -/
 abbrev genSignerResponse (p : Proxy) (m : Signed RespBody) : Except Err (List Ev) :=
-  KM.Gen.TrustAnchorProxy.process_signer_response (ν := Nonce) (σ := SignerInfo) (ε := Err) (α := List Ev)
+  KM.Gen.C15.TrustAnchorProxy.process_signer_response (ν := Nonce) (σ := SignerInfo) (ε := Err) (α := List Ev)
     p.openNonce p.signer m.clear.nonce (validateAs m) .hasNoRequest .nonceMismatch .noSigner
     [.signerResponseReceived m.clear]
 
@@ -36,7 +36,7 @@ abbrev genSignerResponse (p : Proxy) (m : Signed RespBody) : Except Err (List Ev
 proxy state and every (honest, replayed, stale, cross-wired, modified) message. -/
 theorem gen_process_signer_response_eq_model (p : Proxy) (m : Signed RespBody) :
     genSignerResponse p m = processSignerResponse p m := by
-  unfold genSignerResponse KM.Gen.TrustAnchorProxy.process_signer_response processSignerResponse
+  unfold genSignerResponse KM.Gen.C15.TrustAnchorProxy.process_signer_response processSignerResponse
   cases p.openNonce with
   | none => rfl
   | some n =>
@@ -51,19 +51,19 @@ theorem gen_process_signer_response_eq_model (p : Proxy) (m : Signed RespBody) :
 
 /-- `TrustAnchorProxy::process_make_signer_request` as translated = the `makeSignerRequest` arm. -/
 theorem gen_process_make_signer_request_eq_model (p : Proxy) (n : Nonce) :
-    KM.Gen.TrustAnchorProxy.process_make_signer_request (ν := Nonce) (ε := Err) (α := List Ev)
+    KM.Gen.C15.TrustAnchorProxy.process_make_signer_request (ν := Nonce) (ε := Err) (α := List Ev)
       p.openNonce .hasRequest [.signerRequestMade n] = process p (.makeSignerRequest n) := by
-  unfold KM.Gen.TrustAnchorProxy.process_make_signer_request process
+  unfold KM.Gen.C15.TrustAnchorProxy.process_make_signer_request process
   cases p.openNonce <;> rfl
 
 /-- `TrustAnchorProxy::process_give_child_response` as translated = the `giveChildResponse` arm: a response is
 handed over only while the proxy holds one for that child and key – otherwise the command is REFUSED, which is what
 makes a second, overlapping delivery fail ("delivered to that child exactly once", `exactly_once`). -/
 theorem gen_process_give_child_response_eq_model (p : Proxy) (c : Child) (k : Key) :
-    KM.Gen.TrustAnchorProxy.process_give_child_response (C := Unit) (ε := Err) (α := List Ev)
+    KM.Gen.C15.TrustAnchorProxy.process_give_child_response (C := Unit) (ε := Err) (α := List Ev)
       (if p.known c then .ok () else .error .childUnknown) (fun _ => ahas p.openResp (c, k))
       [.childResponseGiven c k] .noResponse = process p (.giveChildResponse c k) := by
-  unfold KM.Gen.TrustAnchorProxy.process_give_child_response process
+  unfold KM.Gen.C15.TrustAnchorProxy.process_give_child_response process
   cases hk : p.known c
   · simp [hk]
   · cases ho : ahas p.openResp (c, k) <;> simp [hk, ho]
